@@ -151,11 +151,14 @@ def main():
         if r_['kind'] == 'kani':
             paired += [h for h in r_.get('harness_list', []) if h.get('paired')]
     kani_failed = any(v['step']['kind'] == 'kani' for v in violations)
-    if violations and paired and not kani_failed and all(h.get('result') == 'SUCCESSFUL' for h in paired) and not any(r_['tool_errors'] for s_, r_ in results if r_['kind'] == 'kani'):
+    kani_tool = any(r_['tool_errors'] for s_, r_ in results if r_['kind'] == 'kani')
+    if violations and paired and not kani_failed and not kani_tool:
         keep = []
         for v in violations:
-            if v['step']['kind'] == 'verus' and not v['failure'].get('no_kani_counterpart') and not lemma_level(v):
-                v['name'] += '  [not confirmed: the %d paired Kani harnesses of %s verify on the real code]' % (len(paired), pid)
+            owners = [c['owner'] for c in v['failure'].get('clauses', [])]
+            cover = [h for h in paired if any(cv in o for cv in h.get('covers', []) for o in owners)]
+            if v['step']['kind'] == 'verus' and owners and cover and all(h.get('result') == 'SUCCESSFUL' for h in cover) and not lemma_level(v):
+                v['name'] += '  [not confirmed: the %d paired Kani harnesses covering this function verify on the real code]' % len(cover)
                 undecided.append(v)
             else:
                 keep.append(v)
